@@ -237,8 +237,12 @@ impl Default for CompareOpts {
 
 /// Run real + model, compare step by step. `Err` = disagreement (a violation).
 pub fn compare(scn: &Scenario, opts: CompareOpts) -> Result<Option<Comparison>, String> {
+    compare_run(scn, run_real(scn), opts)
+}
+
+/// Compare an already executed real run with the model.
+pub fn compare_run(scn: &Scenario, real: RealRun, opts: CompareOpts) -> Result<Option<Comparison>, String> {
     let model = Model::new(scn.partial, &scn.clauses, &FACTS);
-    let real = run_real(scn);
     let mut model = match (model, &real.construct_error) {
         (Ok(m), None) => m,
         (Err(_), Some(_)) => return Ok(None),
